@@ -22,11 +22,18 @@
      exact inverse network `exactInv ζi` (inverse root `ζi`, `|ζi| = 1`, `ζi^m = −i`; levels
      `(x_p, x_{p+h}) ← (x_p + x_{p+h}, ζi^e·(x_p − x_{p+h}))`).  `exactInv_fwd` / `exactInv_of_evals` identify it: it is the
      two-sided inverse of the exact forward network up to the factor `m` (`FFT(exactInv y) = m·y`, `exactInv(FFT a) = m·a`).
-  Not done: the cplx layout (same route), and discharging the flags a priori from a magnitude box (agent M's `InBox`).
+  5. cplx layout (interleaved): `cplx_fft_structural`, `cplx_ifft_structural` (per-block butterflies `gNetC`, `gNetCI`:
+     `cbfs2` for m ≤ 8 with the `(ω, −ω)` butterfly at the last level, `cbfs16` for m ≤ 2048, `crec16` above; in the
+     inverse the odd-log pass runs right after the leaves, so the `−i·ω̄` levels depend on the parity of the region),
+     `cplx_fft_err(_prop)`, `cplx_ifft_err(_prop)` for both implementations (`fma` is the AVX2/FMA code, used for m > 4).
+     The `addsub(0, ω)` trick of the FMA code is exact: `rnd (val b) = val b` (`Spq.F64.rnd_val`).
+     The forward table holds four kinds of entries (cos, sin, −sin, −cos: patterns `cN sN nsN ncN`); `(ncN, nsN)` is
+     only used by the `h = 1` level of `m ≤ 8` and must be within `τ` of `−ζ^e`.
+  Not done: discharging the flags a priori from a magnitude box (agent M's `InBox`).
 -/
-import SpqProofs.Lemmas.FftErrSchedIFin
+import SpqProofs.Lemmas.FftErrSchedCIFin
 namespace Spq.C06Err
-open Finset Spq.Fft Spq.Fft.Alg Spq.Fft.SimP Spq.Fft.LevelN Spq.Fft.SchedN Spq.Fft.RelN Spq.FftErr Spq.F64
+open Finset Spq.Fft Spq.Fft.Alg Spq.Fft.SimP Spq.Fft.LevelN Spq.Fft.SchedN Spq.Fft.SchedC Spq.Fft.RelN Spq.FftErr Spq.F64
 
 /-- **Structural schedule theorem** (law-free), every `m = 2^k`, any `Flav`. -/
 theorem reim_fft_structural {R : Type} [Inhabited R] (F : Flav R) (c s : ℕ → R) (k : ℕ) (s0 : RI R)
@@ -156,6 +163,108 @@ theorem exactInv_of_evals (k : ℕ) (ζ ζi : Cplx K) (hinv : ζ * ζi = 1) (a :
   rw [Nat.sub_self] at this
   exact this
 
+/-! ### cplx layout -/
+
+/-- **Structural schedule theorem, forward cplx** (law-free), every `m = 2^k`, any `CFlav`. -/
+theorem cplx_fft_structural {R : Type} [Inhabited R] (F : CFlav R) (c s ns nc : ℕ → R) (k : ℕ) (s0 : RI R)
+    (hs : Sim.Valid (2 ^ k) s0) (p : ℕ) (hp : p < 2 ^ k) :
+    prs (cfftRI F (2 ^ k) (((cplxFftEnts (2 ^ k)).map (valQ c s ns nc)).toArray) s0) p
+      = VN (gNetC F c s ns nc k) (prs s0) k 0 p :=
+  (cfftRI_struct F c s ns nc k s0 hs).1 p hp
+
+/-- **Structural schedule theorem, inverse cplx** (law-free); `lanesOdd = false` holds for both implementations. -/
+theorem cplx_ifft_structural {R : Type} [Inhabited R] (F : CFlav R) (hl : F.lanesOdd = false) (c s : ℕ → R) (k : ℕ)
+    (s0 : RI R) (hs : Sim.Valid (2 ^ k) s0) (p : ℕ) (hp : p < 2 ^ k) :
+    prs (cifftRI F (2 ^ k) (((cplxIfftEnts (2 ^ k)).map (valP c s)).toArray) s0) p
+      = VNI k (gNetCI F c s k) (prs s0) k p :=
+  (cifftRI_struct F c s k hl s0 hs).1 p hp
+
+/-- **`cplx_fft_err`** -/
+theorem cplx_fft_err (fma : Bool) (k : ℕ) (ζ : Cplx K) (hζ : nsq ζ = 1) (hI : ζ ^ 2 ^ k = Ic) (cN sN nsN ncN : ℕ → ℕ)
+    (hcs : ∀ ℓ d b, ℓ + d + 1 = k → b < 2 ^ ℓ →
+      nsq (toC (((val (cN (twE ℓ d b)) : ℚ) : K), ((val (sN (twE ℓ d b)) : ℚ) : K)) - ζ ^ twE ℓ d b) ≤
+        (((7 / 2 * u64 : ℚ)) : K) ^ 2)
+    (hncs : ∀ ℓ b, ℓ + 1 = k → b < 2 ^ ℓ →
+      nsq (toC (((val (ncN (twE ℓ 0 b)) : ℚ) : K), ((val (nsN (twE ℓ 0 b)) : ℚ) : K)) - -ζ ^ twE ℓ 0 b) ≤
+        (((7 / 2 * u64 : ℚ)) : K) ^ 2)
+    (data : Array ℕ) (hdata : data.size = 2 * 2 ^ k)
+    (hok : ∀ p, p < 2 * 2 ^ k →
+      ((cplxFftA (cfamB fma (2 ^ k) aOk (lift 0)) (2 ^ k)
+        ((((cplxFftEnts (2 ^ k)).map (valQ cN sN nsN ncN)).toArray).map lift) (data.map lift))[p]!).2) :
+    (∀ p, p < 2 * 2 ^ k → Fin64 ((cplxFft (if fma then "fma" else "ref") (2 ^ k)
+        ((cplxFftEnts (2 ^ k)).map (valQ cN sN nsN ncN)).toArray data)[p]!)) ∧
+    ∑ j ∈ range (2 ^ k),
+        nsq (cellC (cplxFft (if fma then "fma" else "ref") (2 ^ k)
+          ((cplxFftEnts (2 ^ k)).map (valQ cN sN nsN ncN)).toArray data) j - exactOutC ζ k data j) ≤
+      ((1 + ((8 * u64 : ℚ) : K)) ^ k - 1) ^ 2 * ∑ j ∈ range (2 ^ k), nsq (exactOutC ζ k data j) := by
+  rw [cplxFft_eq]
+  exact cfft_err_fam fma k ζ hζ hI cN sN nsN ncN hcs hncs data hdata hok
+
+/-- **the property's bound** for the forward cplx transform, `m ≤ 65536` -/
+theorem cplx_fft_err_prop (fma : Bool) (k : ℕ) (hk : k ≤ 16) (ζ : Cplx K) (hζ : nsq ζ = 1) (hI : ζ ^ 2 ^ k = Ic)
+    (cN sN nsN ncN : ℕ → ℕ)
+    (hcs : ∀ ℓ d b, ℓ + d + 1 = k → b < 2 ^ ℓ →
+      nsq (toC (((val (cN (twE ℓ d b)) : ℚ) : K), ((val (sN (twE ℓ d b)) : ℚ) : K)) - ζ ^ twE ℓ d b) ≤
+        (((7 / 2 * u64 : ℚ)) : K) ^ 2)
+    (hncs : ∀ ℓ b, ℓ + 1 = k → b < 2 ^ ℓ →
+      nsq (toC (((val (ncN (twE ℓ 0 b)) : ℚ) : K), ((val (nsN (twE ℓ 0 b)) : ℚ) : K)) - -ζ ^ twE ℓ 0 b) ≤
+        (((7 / 2 * u64 : ℚ)) : K) ^ 2)
+    (data : Array ℕ) (hdata : data.size = 2 * 2 ^ k)
+    (hok : ∀ p, p < 2 * 2 ^ k →
+      ((cplxFftA (cfamB fma (2 ^ k) aOk (lift 0)) (2 ^ k)
+        ((((cplxFftEnts (2 ^ k)).map (valQ cN sN nsN ncN)).toArray).map lift) (data.map lift))[p]!).2) :
+    ∑ j ∈ range (2 ^ k),
+        nsq (cellC (cplxFft (if fma then "fma" else "ref") (2 ^ k)
+          ((cplxFftEnts (2 ^ k)).map (valQ cN sN nsN ncN)).toArray data) j - exactOutC ζ k data j) ≤
+      (((8 * (k + 1 : ℚ) * u64 : ℚ)) : K) ^ 2 * ∑ j ∈ range (2 ^ k), nsq (exactOutC ζ k data j) :=
+  le_trans (cplx_fft_err fma k ζ hζ hI cN sN nsN ncN hcs hncs data hdata hok).2
+    (mul_le_mul_of_nonneg_right (bound16K k hk) (sum_nonneg (fun j _ => nsq_nonneg _)))
+
+/-- **`cplx_ifft_err`** -/
+theorem cplx_ifft_err (fma : Bool) (k : ℕ) (ζi : Cplx K) (hζ : nsq ζi = 1) (hI : ζi ^ 2 ^ k = -Ic) (cN sN : ℕ → ℕ)
+    (hcs : ∀ ℓ d b, ℓ + d + 1 = k → b < 2 ^ ℓ →
+      nsq (toC (((val (cN (twE ℓ d b)) : ℚ) : K), ((val (sN (twE ℓ d b)) : ℚ) : K)) - ζi ^ twE ℓ d b) ≤
+        (((7 / 2 * u64 : ℚ)) : K) ^ 2)
+    (data : Array ℕ) (hdata : data.size = 2 * 2 ^ k)
+    (hok : ∀ p, p < 2 * 2 ^ k →
+      ((cplxIfftA (cifamB fma (2 ^ k) aOk (lift 0)) (2 ^ k)
+        ((((cplxIfftEnts (2 ^ k)).map (valP cN sN)).toArray).map lift) (data.map lift))[p]!).2) :
+    (∀ p, p < 2 * 2 ^ k → Fin64 ((cplxIfft (if fma then "fma" else "ref") (2 ^ k)
+        ((cplxIfftEnts (2 ^ k)).map (valP cN sN)).toArray data)[p]!)) ∧
+    ∑ j ∈ range (2 ^ k),
+        nsq (cellC (cplxIfft (if fma then "fma" else "ref") (2 ^ k)
+          ((cplxIfftEnts (2 ^ k)).map (valP cN sN)).toArray data) j - exactInvC ζi k data j) ≤
+      ((1 + ((8 * u64 : ℚ) : K)) ^ k - 1) ^ 2 * ∑ j ∈ range (2 ^ k), nsq (exactInvC ζi k data j) := by
+  rw [cplxIfft_eq]
+  exact cifft_err_fam fma k ζi hζ hI cN sN hcs data hdata hok
+
+/-- **the property's bound** for the inverse cplx transform, `m ≤ 65536` -/
+theorem cplx_ifft_err_prop (fma : Bool) (k : ℕ) (hk : k ≤ 16) (ζi : Cplx K) (hζ : nsq ζi = 1) (hI : ζi ^ 2 ^ k = -Ic)
+    (cN sN : ℕ → ℕ)
+    (hcs : ∀ ℓ d b, ℓ + d + 1 = k → b < 2 ^ ℓ →
+      nsq (toC (((val (cN (twE ℓ d b)) : ℚ) : K), ((val (sN (twE ℓ d b)) : ℚ) : K)) - ζi ^ twE ℓ d b) ≤
+        (((7 / 2 * u64 : ℚ)) : K) ^ 2)
+    (data : Array ℕ) (hdata : data.size = 2 * 2 ^ k)
+    (hok : ∀ p, p < 2 * 2 ^ k →
+      ((cplxIfftA (cifamB fma (2 ^ k) aOk (lift 0)) (2 ^ k)
+        ((((cplxIfftEnts (2 ^ k)).map (valP cN sN)).toArray).map lift) (data.map lift))[p]!).2) :
+    ∑ j ∈ range (2 ^ k),
+        nsq (cellC (cplxIfft (if fma then "fma" else "ref") (2 ^ k)
+          ((cplxIfftEnts (2 ^ k)).map (valP cN sN)).toArray data) j - exactInvC ζi k data j) ≤
+      (((8 * (k + 1 : ℚ) * u64 : ℚ)) : K) ^ 2 * ∑ j ∈ range (2 ^ k), nsq (exactInvC ζi k data j) :=
+  le_trans (cplx_ifft_err fma k ζi hζ hI cN sN hcs data hdata hok).2
+    (mul_le_mul_of_nonneg_right (bound16K k hk) (sum_nonneg (fun j _ => nsq_nonneg _)))
+
+/-- what `exactInvC` is: `FFT(exactInvC y) = m·y` and `exactInvC(FFT a) = m·a` -/
+theorem exactInvC_fwd (k : ℕ) (ζ ζi : Cplx K) (hinv : ζ * ζi = 1) (data : Array ℕ) (j : ℕ) :
+    V ζ (fun q => exactInvC ζi k data q) k 0 j = 2 ^ k * cellC data j :=
+  exactInvC_fwd' k ζ ζi hinv data j
+
+theorem exactInvC_of_evals (k : ℕ) (ζ ζi : Cplx K) (hinv : ζ * ζi = 1) (a : ℕ → Cplx K) (data : Array ℕ)
+    (hdata : ∀ p, p < 2 ^ k → cellC data p = V ζ a k 0 p) (j : ℕ) (hj : j < 2 ^ k) :
+    exactInvC ζi k data j = 2 ^ k * a j :=
+  exactInvC_of_evals' k ζ ζi hinv a data hdata j hj
+
 /-- the hypotheses of `reim_fft_err` are satisfiable (K = ℚ, m = 1, `ζ = i`, data `(+0, +0)`); for `m ≥ 2` the roots
 are irrational: take `K = ℝ`, `ζ = exp(iπ/2m)` -/
 example : ∃ (ζ : Cplx ℚ) (data : Array ℕ), nsq ζ = 1 ∧ ζ ^ 2 ^ 0 = Ic ∧ data.size = 2 * 2 ^ 0 ∧
@@ -174,5 +283,23 @@ example : ∃ (ζi : Cplx ℚ) (data : Array ℕ), nsq ζi = 1 ∧ ζi ^ 2 ^ 0 =
   intro p hp
   have : p = 0 ∨ p = 1 := by omega
   rcases this with rfl | rfl <;> simp [reimIfftA, ifftRI, joinRI, splitRI, lift, fin64_zero]
+
+/-- the hypotheses of `cplx_fft_err` / `cplx_ifft_err` are satisfiable (K = ℚ, m = 1) -/
+example : ∃ (ζ : Cplx ℚ) (data : Array ℕ), nsq ζ = 1 ∧ ζ ^ 2 ^ 0 = Ic ∧ data.size = 2 * 2 ^ 0 ∧
+    ∀ p, p < 2 * 2 ^ 0 → ((cplxFftA (cfamB false (2 ^ 0) aOk (lift 0)) (2 ^ 0)
+      ((((cplxFftEnts (2 ^ 0)).map (valQ (fun _ => 0) (fun _ => 0) (fun _ => 0) (fun _ => 0))).toArray).map lift)
+      (data.map lift))[p]!).2 := by
+  refine ⟨Ic, #[0, 0], by simp [nsq, Ic], by simp, rfl, ?_⟩
+  intro p hp
+  have : p = 0 ∨ p = 1 := by omega
+  rcases this with rfl | rfl <;> simp [cplxFftA, cfftRI, interleave, deinterleave, lift, fin64_zero]
+
+example : ∃ (ζi : Cplx ℚ) (data : Array ℕ), nsq ζi = 1 ∧ ζi ^ 2 ^ 0 = -Ic ∧ data.size = 2 * 2 ^ 0 ∧
+    ∀ p, p < 2 * 2 ^ 0 → ((cplxIfftA (cifamB false (2 ^ 0) aOk (lift 0)) (2 ^ 0)
+      ((((cplxIfftEnts (2 ^ 0)).map (valP (fun _ => 0) (fun _ => 0))).toArray).map lift) (data.map lift))[p]!).2 := by
+  refine ⟨-Ic, #[0, 0], by simp [nsq, Ic], by simp, rfl, ?_⟩
+  intro p hp
+  have : p = 0 ∨ p = 1 := by omega
+  rcases this with rfl | rfl <;> simp [cplxIfftA, cifftRI, interleave, deinterleave, lift, fin64_zero]
 
 end Spq.C06Err
